@@ -105,7 +105,7 @@ func genC03(t *rapid.T) DocCase {
 }
 
 func TestC03(t *testing.T) {
-	p := Prop[DocCase]{ID: "C03", Sub: "decode", Gen: genC03, Run: runC03, Quick: 20000, Thorough: 100000}
+	p := Prop[DocCase]{ID: "C03", Sub: "decode", Gen: genC03, Run: runC03, Quick: 20000, Thorough: 400000}
 	// enumerated: every boundary scalar, bare and annotated, under a few fixed
 	// choice streams (all-canonical and "always last option")
 	Enumerate(t, p, "boundary-pool", func(yield func(DocCase) bool) {
